@@ -266,7 +266,8 @@ let run_case (line:str) : str =
     else if st = 304 then "304 - - " ^ (if r.rs_etag then "1" else "0") ^ " -"
     else Printf.sprintf "%d - - 0 -" st
   | "srv" -> srv_case ts
-  | "srvsize" -> "ok"
+  | "malformed" -> "ok"
+  | "sched" -> "crash"
   | op -> "unknown-op " ^ op
 
 let () =
